@@ -28,7 +28,10 @@ EXPLANATION = (
     "every ctl.add in the two encoders is recognised as one of the clause kinds of the encoding and is emitted under "
     "exactly its condition (totality only for 'fix', non-triviality and source clauses only for 'max' with free "
     "places, free places = places of variables outside ensure_subspace, one rule per (transition, non-tautological "
-    "place) with no further filtering, avoid clauses over all literals of the avoided space, #false for the empty one)."
+    "place) with no further filtering, avoid clauses over all literals of the avoided space, #false for the empty one). "
+    "(T5) the request reaches the encoder unchanged (parameters handed down, defaults neutral); (T6) no state survives a "
+    "call (fresh Control, no memo). (T7) in the two callback entry points every path from the entry to a normal return "
+    "passes the encoder call and the solve call, and the request is not handed to another solver entry point."
 )
 ASSUMPTIONS = [
     "the logic programs have the intended models (siphon/trap characterisation of trap spaces; clingo is correct)",
@@ -43,6 +46,8 @@ def run(ck: Check) -> None:
     t4(ck)
     t5(ck)
     t6(ck)
+    t7(ck)
+    ck.floor("T7", 2)
     ck.floor("T6", 2)
     ck.floor("T5", 14)
     ck.floor("T1", 9)
@@ -739,6 +744,35 @@ def t5(ck: Check) -> None:
                         probs.append(f"{g.name} receives `{a.id}` as its `{pn}`")
                 ck.ob("T5", fm, f.stmt_of(c), not probs, "; ".join(probs) if probs else
                       f"`{pn}` handed down to {g.name} unchanged", key=f"{f.name} -> {g.name}: {pn}")
+
+
+def t7(ck: Check) -> None:
+    """Every request is answered by its own encoder and solver run: in the two callback entry points every path from the
+    entry to a normal return passes the encoder call and the solve call, and neither hands the request to another solver
+    entry point (which has other request parameters: time direction, problem kind, source optimisation, retained set)."""
+    from .common import escapes
+    entries = {"trappist_async": "_create_clingo_constraints",
+               "compute_fixed_point_reduced_STG_async": "_create_clingo_fixed_point_constraints"}
+    solvers = set(entries) | {"trappist", "compute_fixed_point_reduced_STG"}
+    for q, enc in entries.items():
+        fm = ck.prog.fm(TRAP, q)
+        f = fm.f
+        probs = []
+        solves = [fm.cfgn(c) for c in own_walk(f.node) if isinstance(c, ast.Call) and isinstance(c.func, ast.Attribute) and c.func.attr == "solve"]
+        encs = [fm.cfgn(c) for c in own_walk(f.node) if isinstance(c, ast.Call) and callee_name(c) == enc]
+        if not solves or not encs:
+            raise AnalysisError(f"anchor vanished: {q} no longer calls {enc} and solve()")
+        for what, cuts in (("the solver run", solves), (f"the encoder `{enc}`", encs)):
+            esc = escapes(fm, fm.cfg.entry, cuts, None, need_pre=False)
+            if esc is not None:
+                probs.append(f"a path returns without {what} (reaches {esc}): an early exit claims an empty answer that nothing "
+                             f"proves -- e.g. an avoided subspace that contradicts the enclosing one excludes nothing")
+        for c in own_walk(f.node):
+            if isinstance(c, ast.Call) and callee_name(c) in solvers and callee_name(c) != q:
+                probs.append(f"line {c.lineno}: the request is handed to `{callee_name(c)}`, which does not take all of this entry "
+                             f"point's request parameters (time direction, problem kind, source optimisation / retained set)")
+        ck.ob("T7", fm, f.node, not probs, "; ".join(sorted(set(probs))) if probs else
+              "every path encodes the request and runs the solver; no delegation to another solver entry point", key=f"{q} paths")
 
 
 def t6(ck: Check) -> None:
